@@ -335,6 +335,13 @@ int main(int argc, char** argv) {
         std::ifstream cf(capfile); std::stringstream ss; ss << cf.rdbuf(); captured = ss.str();
       }
       SolInfo si = ReadSol(stub + ".sol");
+      if (!si.ok && noampl && si.err == "nofile") {
+        // stand-alone run without .sol output (wantsol bit 1 not set): only what was printed can be observed
+        std::printf("\nreport %d %d %d %d %d %d | sol-absent stdoutstatus=%d stdoutobj=%d stdoutprimal=%d stdoutdual=%d rc=%d\n", code, nobj, pr, du, nalt, flags,
+                    (int)(captured.find(kStatusText) != std::string::npos), (int)(captured.find("; objective ") != std::string::npos),
+                    (int)(captured.find("\nvariable") != std::string::npos), (int)(captured.find("\nconstraint") != std::string::npos), rc);
+        continue;
+      }
       if (!si.ok) { std::printf("\nreport %d %d %d %d %d %d | sol-unreadable %s rc=%d\n", code, nobj, pr, du, nalt, flags, si.err.c_str(), rc); continue; }
       // the numbered files <solstub>1.sol, <solstub>2.sol, ... written through ReportIntermediateSolution
       std::string altcodes = "", hfs = "";
@@ -391,12 +398,13 @@ int main(int argc, char** argv) {
       bool statusShown = si.msg.find(kStatusText) != std::string::npos;
       char hsobj[64];
       if (std::isnan(g.hs_obj)) std::strcpy(hsobj, "nan"); else std::snprintf(hsobj, sizeof hsobj, "%.17g", g.hs_obj);
-      std::printf("\nreport %d %d %d %d %d %d | objShown=%d objValText=%d anyObjWord=%d status=%d code=%d objno=%d nx=%ld ny=%ld hs=%d hsobj=%s hsx=%d hsy=%d samemsg=%d nobjpost=%ld multi=%d nalt=%d altcodes=%s hfs=%s altmsg=%d fr=%d orig=%d kappamsg=%d extra=%d roundmsg=%d altrange=%d stdoutmsg=%d stdoutobj=%d sufs=%s order=%s rc=%d\n",
+      std::printf("\nreport %d %d %d %d %d %d | objShown=%d objValText=%d anyObjWord=%d status=%d code=%d objno=%d nx=%ld ny=%ld hs=%d hsobj=%s hsx=%d hsy=%d samemsg=%d nobjpost=%ld multi=%d nalt=%d altcodes=%s hfs=%s altmsg=%d fr=%d orig=%d kappamsg=%d extra=%d roundmsg=%d altrange=%d stdoutmsg=%d stdoutobj=%d stdoutprimal=%d stdoutdual=%d sufs=%s order=%s rc=%d\n",
                   code, nobj, pr, du, nalt, flags, (int)shown, (int)shownval, (int)anyobj, (int)statusShown, si.code, si.objno, si.nx, si.ny,
                   g.hs_called ? g.hs_code : -12345, hsobj, (int)g.hs_x, (int)g.hs_y,
                   (int)(rstrip(si.msg) == rstrip(g.hs_msg)), g.nobj_post, (int)g.need_multi, nfiles,
                   altcodes.empty() ? "-" : altcodes.c_str(), hfs.empty() ? "-" : hfs.c_str(), altstatus,
                   (int)fr, (int)orig, (int)kappamsg, (int)extra, (int)roundmsg, (int)altrange, stdoutmsg, stdoutobj,
+                  noampl ? (int)(captured.find("\nvariable") != std::string::npos) : -1, noampl ? (int)(captured.find("\nconstraint") != std::string::npos) : -1,
                   si.sufs.empty() ? "-" : si.sufs.c_str(), order.empty() ? "-" : order.c_str(), rc);
     }
     return 0;
